@@ -395,7 +395,7 @@ theorem C03_public_event (s s' : State) (op : Op) (a : Addr) (c L : Nat)
   have := (step_effect h).1
   exact ⟨this.1, this.2.1, this.2.2.1⟩
 
-private theorem pub_step (a : Addr) (s : State) (op : Op) (s' : State) (e : Event) (h : step s op = .ok (s', e)) :
+theorem pub_step (a : Addr) (s : State) (op : Op) (s' : State) (e : Event) (h : step s op = .ok (s', e)) :
     s'.pub a = if isPurge e then 0 else if publicInitiatedBy a e then s.pub a + 1 else s.pub a := by
   have he := (step_effect h).1
   cases e with
@@ -540,7 +540,7 @@ theorem C03_airdrop_step (s s' : State) (sender r : Addr) (forId pre : Bool) (e 
         refine ⟨rfl, rfl, by simp [upd], ?_, by simp [upd]⟩
         intro b hb; simp [upd, hb]
 
-private theorem wlc_step (k : MinterKind) (a : Addr) (s : State) (op : Op) (s' : State) (e : Event)
+theorem wlc_step (k : MinterKind) (a : Addr) (s : State) (op : Op) (s' : State) (e : Event)
     (hk : s.kind = k) (h : step s op = .ok (s', e)) :
     s'.wlc a = if (isPurge e && decide (k.flavor = .flex)) then 0
                else if wlMintBy a 0 e then s.wlc a + 1 else s.wlc a := by
@@ -562,7 +562,7 @@ private theorem wlc_step (k : MinterKind) (a : Addr) (s : State) (op : Op) (s' :
     by_cases hf : k.flavor = .flex <;> simp [isPurge, wlMintBy, hw, hf, zero]
   | other => simp [isPurge, wlMintBy, he.2.1]
 
-private theorem stg_step (a : Addr) (k : Nat) (hk : k ≠ 0) (s : State) (op : Op) (s' : State) (e : Event)
+theorem stg_step (a : Addr) (k : Nat) (hk : k ≠ 0) (s : State) (op : Op) (s' : State) (e : Event)
     (h : step s op = .ok (s', e)) :
     s'.stg k a = if (fun _ => false) e then 0 else if wlMintBy a k e then s.stg k a + 1 else s.stg k a := by
   have he := (step_effect h).1
@@ -585,7 +585,7 @@ private theorem stg_step (a : Addr) (k : Nat) (hk : k ≠ 0) (s : State) (op : O
   | purge => simp [wlMintBy, he.2.2.1]
   | other => simp [wlMintBy, he.2.2.1]
 
-private theorem kind_inv (k : MinterKind) (s : State) (op : Op) (s' : State) (e : Event)
+theorem kind_inv (k : MinterKind) (s : State) (op : Op) (s' : State) (e : Event)
     (hk : s.kind = k) (h : step s op = .ok (s', e)) : s'.kind = k := by
   rw [(step_effect h).2.1, hk]
 
@@ -651,7 +651,7 @@ theorem C03_wl_history_stage (s0 : State) (h0 : Fresh s0) (a : Addr) (k : Nat) (
 
 /-! ## Clause 3 — stage totals against the stage's `mint_count_limit` -/
 
-private theorem tot_step (k : Nat) (hk : k ≠ 0) (s : State) (op : Op) (s' : State) (e : Event)
+theorem tot_step (k : Nat) (hk : k ≠ 0) (s : State) (op : Op) (s' : State) (e : Event)
     (h : step s op = .ok (s', e)) :
     s'.tot k = if (fun _ => false) e then 0 else if stageMint k e then s.tot k + 1 else s.tot k := by
   have he := (step_effect h).1
@@ -732,7 +732,7 @@ def initiatedBy (a : Addr) : Event → Bool
   | .wlMint b _ _ _ _ _ => decide (b = a)
   | _ => false
 
-private theorem report_step (a : Addr) (s : State) (op : Op) (s' : State) (e : Event)
+theorem report_step (a : Addr) (s : State) (op : Op) (s' : State) (e : Event)
     (h : step s op = .ok (s', e)) (hp : isPurge e = false) :
     reportCount s' a + reportWl s' a =
       (reportCount s a + reportWl s a) + (if initiatedBy a e then 1 else 0) := by
